@@ -90,3 +90,8 @@ pub mod error_fns {
     #[verifier::external_body]
     pub fn unimp<T>(msg: &'static str) -> (r: Result<T, error::Error>) ensures r is Err, r->Err_0.is_unimplemented() { unimplemented!() }
 }
+#[verifier::external_body]
+pub fn shell_absolute_path_str(shell: &Shell, s: &str) -> (r: PathBuf)
+    ensures r.text() == resolve(shell.cwd(), s@), s@.len() > 0 ==> is_abs(r.text())
+{ unimplemented!() }
+pub fn new_open_options() -> (r: OpenOptions) ensures r == no_flags() { OpenOptions { read: false, write: false, append: false, truncate: false, create: false, create_new: false } }
